@@ -208,16 +208,43 @@ def context_rules(check: Check) -> None:
 
 
 def context_params(fn, program=None) -> tuple[list[str], dict[str, str]]:
+    """(keyword parameters of context, {parameter: attribute it is stored under when different}). The mapping is obtained by
+    interpreting the generator up to its yield with one parameter named at a time and looking which attribute then holds the requested
+    value (sa/absexec.py), so it does not depend on how the renaming is spelled."""
     params = [x.name for x in fn.params if x.kind == "kwonly"]
     renames: dict[str, str] = {}
-    if program is not None:
-        r = Resolver(program, fn)
-        for n in r.cfg.stmt_nodes():
-            a_ = n.ast
-            if isinstance(a_, ast.Assign) and len(a_.targets) == 1 and isinstance(a_.targets[0], ast.Subscript) and isinstance(a_.targets[0].slice, ast.Constant):
-                v = r.term(a_.value, n)
-                if v[0] == "call" and v[1][0] == "attr" and v[1][2] == "pop" and v[2] and v[2][0][0] == "const":
-                    renames[v[2][0][1]] = a_.targets[0].slice.value
+    if program is None:
+        return params, renames
+    from ..absexec import AbsExec, Internal, MObj, Raised, Unknown, _Return
+
+    init = program.func("Settings.__init__")
+    attrs = []
+    for n in ast.walk(init.analysis_node):
+        if isinstance(n, (ast.Assign, ast.AnnAssign)):
+            for t in (n.targets if isinstance(n, ast.Assign) else [n.target]):
+                if isinstance(t, ast.Attribute) and isinstance(t.value, ast.Name) and t.value.id == "self" and t.attr not in attrs:
+                    attrs.append(t.attr)
+    for prm in params:
+        obj = MObj("Settings", {a: ("old", a) for a in attrs})
+        seen: dict[str, object] = {}
+
+        def on_yield(ex_, e, value, env, obj=obj, seen=seen):
+            seen.update(obj.fields)
+            raise _Return(None)
+
+        ex = AbsExec(fn.qualname, {"yield": on_yield})
+        env = {"self": obj, **{q: (("probe", prm) if q == prm else None) for q in params}}
+        try:
+            ex.block(list(fn.analysis_node.body), env)
+        except (_Return, Raised, Internal):
+            pass
+        except Unknown as u:
+            raise AnalysisError(str(u)) from None
+        holders = [a for a, v in seen.items() if v == ("probe", prm)]
+        if len(holders) == 1 and holders[0] != prm:
+            renames[prm] = holders[0]
+        elif not holders:
+            renames[prm] = f"<no attribute holds the requested {prm} inside the context>"
     return params, renames
 
 
